@@ -33,9 +33,14 @@ DatasetsAgg3 == DatasetsAgg(3, XDom)
 DatasetsAgg4 == DatasetsAgg(4, XDom)
 DatasetsAgg5s == DatasetsAgg(5, XDomSmall)
 DatasetsGroup3 == DatasetsGroup(3)
-DatasetsGroup4 == DatasetsGroup(4)
+(* N = 4: the measure alternates 3, -2 by position, every key assignment *)
+DatasetsGroup4 == {[j \in 1..4 |-> Ev(j, 1000 * j, IF j % 2 = 1 THEN XI(3) ELSE XI(-2), gs[j])] : gs \in SeqsOf(4, GDom)}
 DatasetsBucket3 == DatasetsBucket(3)
 DatasetsBucket4 == DatasetsBucket(4)
+(* smaller N = 4 universes for behaviour export (the exhaustive check uses the full ones) *)
+DatasetsAgg4s == DatasetsAgg(4, XDomSmall \cup {XT("zz")})
+DatasetsGroup4s == {[j \in 1..4 |-> Ev(j, 1000 * j, IF j % 2 = 1 THEN XI(3) ELSE XI(-2), gs[j])] : gs \in SeqsOf(4, GDom \ {GS("k2")})}
+DatasetsBucket4s == {[j \in 1..4 |-> Ev(j, ts[j], XI(1), GS("k1"))] : ts \in SeqsOf(4, {0, 999, 1000, 2000, 3500})}
 SpansAll == {1000, 1500, 2000, 700}
 OriginsAll == {0, -10, -1000, -999}
 SpansNone == {}
